@@ -13,7 +13,9 @@ package main
 //           flags say, and identical for every memory limit
 //   query   (T2/S) the same through the compiler (`sort -r -nulls first k0 desc, k1`)
 //   merge   (S) merge.Op over sorted parents yields a sorted interleaving (each parent's values
-//           in order, every value once)
+//           in order, every value once); (T2) every Pull result of the real operator (which
+//           parent each value came from) replayed against the model of merge.Op (heap minimum,
+//           whole-batch rule, read path up to PullerBatchValues): accepted, same values per Pull
 
 import (
 	"context"
@@ -859,14 +861,19 @@ func genMergeCase(c *Ctx) *mergeCase {
 	mc := &mergeCase{Check: "merge", NullsMax: r.Intn(2) == 0, Desc: r.Intn(3) == 0}
 	pool := keyPools[r.Intn(len(keyPools))]
 	np := 1 + r.Intn(5)
+	maxVals, maxBatch := 30, 6
+	if r.Intn(6) == 0 {
+		// long overlapping batches: the read path runs into the value limit of the zbuf puller
+		np, maxVals, maxBatch = 2+r.Intn(2), 160, 90
+	}
 	for p := 0; p < np; p++ {
 		var vals []string
-		for i, n := 0, r.Intn(30); i < n; i++ {
+		for i, n := 0, r.Intn(maxVals); i < n; i++ {
 			vals = append(vals, pool[r.Intn(len(pool))])
 		}
 		var bs [][]string
 		for len(vals) > 0 {
-			b := 1 + r.Intn(6)
+			b := 1 + r.Intn(maxBatch)
 			if b > len(vals) {
 				b = len(vals)
 			}
@@ -893,6 +900,9 @@ func checkMerge(c *Ctx, mc *mergeCase) {
 	}
 	var parents []zbuf.Puller
 	var all [][]rowT
+	var req strings.Builder
+	fmt.Fprintf(&req, "(C06 merge %d (%d) (", b2i(mc.NullsMax), b2i(mc.Desc))
+	modelOK := true
 	id := 0
 	for p, bs := range mc.Parents {
 		var vals []zed.Value
@@ -920,15 +930,28 @@ func checkMerge(c *Ctx, mc *mergeCase) {
 		all = append(all, rs)
 		var batches [][]zed.Value
 		off := 0
+		req.WriteString("(")
 		for _, n := range sizes {
 			batches = append(batches, vals[off:off+n])
+			req.WriteString("(")
+			for _, v := range vals[off : off+n] {
+				k := zed.Null
+				if d := v.Deref("k"); d != nil {
+					k = *d
+				}
+				fmt.Fprintf(&req, "(%d %s)", rowID(v), valSexp(k))
+			}
+			req.WriteString(")")
 			off += n
 		}
+		req.WriteString(")")
 		parents = append(parents, &sliceBatchPuller{batches: batches})
 	}
+	req.WriteString(") (")
 	c.Eval(fmt.Sprintf("merge:%v:%v:%v", mc.Parents, mc.NullsMax, mc.Desc))
 	c.Stat(fmt.Sprintf("merge:parents:%d", len(mc.Parents)))
 	var out []zed.Value
+	var pulls [][]zed.Value
 	e, _ := Protect(func() error {
 		ctx, cancel := context.WithTimeout(context.Background(), 30*time.Second)
 		defer cancel()
@@ -941,9 +964,12 @@ func checkMerge(c *Ctx, mc *mergeCase) {
 			if b == nil {
 				return nil
 			}
+			var one []zed.Value
 			for _, v := range b.Values() {
 				out = append(out, v.Copy())
+				one = append(one, v.Copy())
 			}
+			pulls = append(pulls, one)
 		}
 	})
 	if e != nil {
@@ -974,6 +1000,39 @@ func checkMerge(c *Ctx, mc *mergeCase) {
 			c.Fail("oracle", "C06:merge:order", fmt.Sprintf("output value %s precedes %s but compares greater", zson.FormatValue(out[i-1]), zson.FormatValue(v)), mc)
 			return
 		}
+	}
+	// (T2) the model of merge.Op accepts exactly this run: every Pull result is what the heap of
+	// parents, the whole-batch rule and the read path (up to PullerBatchValues values) allow
+	if !modelOK {
+		return
+	}
+	var want []string
+	for _, one := range pulls {
+		req.WriteString("(")
+		var ts []string
+		for i, v := range one {
+			if i > 0 {
+				req.WriteString(" ")
+			}
+			fmt.Fprint(&req, v.Deref("p").Int())
+			ts = append(ts, fmt.Sprint(rowID(v)))
+		}
+		req.WriteString(")")
+		want = append(want, strings.Join(ts, " "))
+		c.Stat(fmt.Sprintf("merge:pull:%s", bucket(len(one))))
+		if len(one) >= 100 {
+			c.Stat("merge:pull:value-limit")
+		}
+	}
+	req.WriteString("))")
+	a := c.Model().Call(req.String())
+	c.Res.ModelCases++
+	if w := "ok " + strings.Join(want, "/"); a != w {
+		var sizes []int
+		for _, one := range pulls {
+			sizes = append(sizes, len(one))
+		}
+		c.Fail("correspondence", "C06:mergeop", fmt.Sprintf("real Pull results (sizes %v) %s; model: %s", sizes, w, a), mc)
 	}
 }
 
